@@ -330,11 +330,15 @@ class Html(base.Content):
     s.write(
         f'<{tag}',
         f' {options}' if options else None,
-        f' class="{css_classes}"' if css_classes else None,
+        (f' class="{cls._escape_attribute(css_classes)}"'
+         if css_classes else None),
         f' style="{styles}"' if styles else None,
     )
     for k, v in properties.items():
       if v is not None:
+        # NOTE: the value is user data in general (e.g. a link): it must not be
+        # able to end the attribute.
+        v = cls._escape_attribute(str(v))
         s.write(f' {k.replace("_", "-")}="{v}"')
     s.write('>')
 
@@ -346,6 +350,13 @@ class Html(base.Content):
     # Write the closing tag.
     s.write(f'</{tag}>')
     return s
+
+  @classmethod
+  def _escape_attribute(cls, value: str) -> str:
+    """Escapes a value that is written between double quotes."""
+    # NOTE: single quotes are kept, as they are harmless within double quotes
+    # and common in event handlers (e.g. `onclick="f('x')"`).
+    return html_lib.escape(value, quote=False).replace('"', '&quot;')
 
   @classmethod
   def escape(
